@@ -146,6 +146,17 @@ Encode ==
   /\ phase' = "sealed"
   /\ UNCHANGED <<frame, method, place, tamper, touched, detail, result>>
 
+\* an independent implementation of the v2 format: the extra field of ANY frame may hold tag + padding (the format
+\* does not know the sender's habit of padding only the first PadFirstN frames of a stream); the decoder must take it
+EncodeForeign ==
+  /\ phase = "init" /\ frame.seq >= PadFirstN /\ TamperMode = "none"
+  /\ \E p \in {MaxPad(method) \div 2, MaxPad(method)} :
+       /\ pad' = p
+       /\ sent' = Seal("K", method, frame, p, place)
+       /\ wire' = sent'
+  /\ phase' = "sealed"
+  /\ UNCHANGED <<frame, method, place, tamper, touched, detail, result>>
+
 Tampered(name, T, d, w) ==
   /\ phase = "sealed" /\ TamperMode # "none"
   /\ tamper' = name /\ touched' = T /\ detail' = d /\ wire' = w
@@ -216,7 +227,7 @@ Receive ==
   /\ phase' = "done"
   /\ UNCHANGED <<frame, method, pad, place, sent, wire, tamper, touched, detail>>
 
-Next == Encode \/ Tamper \/ Receive
+Next == Encode \/ EncodeForeign \/ Tamper \/ Receive
 Spec == Init /\ [][Next]_vars
 
 -----------------------------------------------------------------------------
